@@ -54,7 +54,8 @@ Theorem C15_response_verifies : forall secret cs ds handler H stale dg c called 
   nth 1 resp 0 = nth 1 dg 0 /\
   (nth 0 resp 0 = c + 1 \/ nth 0 resp 0 = c + 2) /\
   firstn 16 (skipn 4 resp) = digest16 (H (s_respkey secret dg resp)) /\
-  (N.of_nat (length resp) < 65536 -> s_len resp = length resp).
+  (N.of_nat (length resp) < 65536 -> s_len resp = length resp) /\
+  (20 <= length resp)%nat.
 Proof. exact response_props. Qed.
 Print Assumptions C15_response_verifies.
 
@@ -72,7 +73,27 @@ Theorem C15_stale_buffer_irrelevant : forall secret cs ds handler H s1 s2 dg,
 Proof. exact stale_independent. Qed.
 Print Assumptions C15_stale_buffer_irrelevant.
 
-(* (6) the tree before the fix (finding K15a, commit ce0927a): no_panic is refuted, exactly for
+(* (6) Model ⊑ monitor: the trace monitor of Model/CoaSpec.v (the executable reading of the property text
+   that also judges the real code's traces) accepts what the Model does with ANY datagram, when the
+   observable "complete and verifies" is the true one. Guard: the response is shorter than 65536 bytes
+   (a Reply-Message of > 65 KB would wrap the 16-bit Length field). *)
+Theorem C15_monitor_accepts_model : forall secret cs ds handler H stale dg hr tbl fl,
+  (forall c called req resp, coa_process true secret cs ds handler H stale dg = Handle c called req resp ->
+                             N.of_nat (length resp) < 65536) ->
+  let ss := {| s_secret := secret; s_coa_set := cs; s_dm_set := ds |} in
+  accept (fun k => Some (H k)) ss
+         {| o_dg := dg; o_hr := hr; o_authentic := andb (s_complete dg) (req_verifies secret H dg);
+            o_tbl := tbl; o_md5 := fl |}
+         (obs_of (coa_process true secret cs ds handler H stale dg)) = inl ss.
+Proof. exact monitor_accepts_model. Qed.
+Print Assumptions C15_monitor_accepts_model.
+
+(* strict attribute tiling (the monitor's "well-formed") implies the code's parser succeeds *)
+Theorem C15_wellformed_attributes_parse : forall dg, s_wf dg = true -> exists a, attrs_parse (s_attrs dg) = POk a.
+Proof. exact wellformed_attributes_parse. Qed.
+Print Assumptions C15_wellformed_attributes_parse.
+
+(* (7) the tree before the fix (finding K15a, commit ce0927a): no_panic is refuted, exactly for
    datagrams of >= 20 bytes whose Length field is below 20; elsewhere the fix changes nothing *)
 Theorem C15_no_panic_before_fix_refuted : exists dg, forall secret cs ds handler H stale,
   coa_process false secret cs ds handler H stale dg = Panic.
